@@ -13,8 +13,13 @@ model of the redb API that is trusted here (and validated by the real-file harne
   insert              `t.insert(key, vv.as_slice()).expect(..)`         map insert into the transaction's copy
   commit              `tx.commit().unwrap();`                           the copy becomes the committed table
   abort / drop        `tx.abort().unwrap();` / `drop(table);`           the copy is discarded
-  encode_vv           `Self::encode_vv(version, value)`                 explicit parameter `ext_encode_vv` (generated and
-                                                                        characterised separately: Gen/KvvBytesFn.lean)
+  encode_vv/decode_vv `Self::encode_vv(version, value)`                 explicit parameters `ext_encode_vv`, `ext_decode_vv`
+                                                                        (generated and characterised separately: Gen/KvvBytesFn.lean)
+  iteration           `table.iter().unwrap()`, `item.expect(..)`, `key.value()`   the entries of the table in key order
+
+`load_versions` is the block of `new_store` that fills the version cache ("load the current versions"), framed as a
+function of the committed table: the frame (`let mut versions = BTreeMap::new()` … the store is built with `versions`)
+is checked against the source text.
 
 Everything else (the comparisons, `continue`, the mismatch flag, `staged_versions`, where the version cache is read and
 written) is the source text.  Fail closed: every rewrite must apply the expected number of times, no `db`/`tx`/`table`
@@ -26,7 +31,7 @@ from rs2lean import Unit, RsError
 
 HERE = os.path.dirname(os.path.abspath(__file__))
 REL = "vls-persist/src/kvv/redb.rs"
-FNS = [("put", "C16_gen_redb_put"), ("put_with_version", "C16_gen_redb_put_with_version"),
+FNS = [("load_versions", "C16_gen_redb_load_versions"), ("put", "C16_gen_redb_put"), ("put_with_version", "C16_gen_redb_put_with_version"),
        ("put_batch", "C16_gen_redb_put_batch"), ("get_version", "C16_gen_redb_get_version")]
 
 # (regex, replacement, {function: expected number of applications})
@@ -83,6 +88,48 @@ def rewrite(name, text):
     return out
 
 
+LOAD_RULES = [
+    (r"let tx = db\.begin_read\(\)\.unwrap\(\);", "let tx = table0.clone();", 1),
+    (r"let table = tx\.open_table\(TABLE\)\.unwrap\(\);", "", 1),
+    (r"\btable\.iter\(\)\.unwrap\(\)", "tx.iter()", 1),
+    (r"\bitem\.expect\(\"failed to iterate\"\)", "item", 1),
+    (r"\bvv\.value\(\)", "vv", 1),
+    (r"\bkey\.value\(\)\.to_string\(\)", "key.to_string()", 1),
+    (r"Self::decode_vv\(", "decode_vv(", 1),
+]
+
+
+def load_versions_fn(src):
+    """the block of `new_store` that loads the version cache from the table, as a function of the committed table"""
+    a = src.index("pub fn new_store")
+    b = src.index("fn migrate_v1_to_v2")
+    body = src[a:b]
+    if len(re.findall(r"let mut versions = BTreeMap::new\(\);", body)) != 1:
+        raise ExtractError("x_redb: new_store: `let mut versions = BTreeMap::new();` expected exactly once")
+    if len(re.findall(r"Self \{ db, versions: Mutex::new\(versions\), signer_id \}", body)) != 1:
+        raise ExtractError("x_redb: new_store: the loaded `versions` must be what the store is built with")
+    i = body.index("let tx = db.begin_read().unwrap();")
+    j = body.index("for item in table.iter().unwrap() {", i)
+    k, d = body.index("{", j), 0
+    while True:
+        if body[k] == "{": d += 1
+        elif body[k] == "}":
+            d -= 1
+            if d == 0: break
+        k += 1
+    blk = body[i:k + 1]
+    between = re.sub(r"//[^\n]*", "", body[body.index("let mut versions = BTreeMap::new();") + 40:i])
+    if re.search(r"\bversions\b", between):
+        raise ExtractError("x_redb: new_store: `versions` is used before the loading block")
+    for rx, rep, want in LOAD_RULES:
+        blk, n = re.subn(rx, rep, blk)
+        if n != want: raise ExtractError("x_redb: new_store loading block: idiom /%s/ applies %d times, expected %d" % (rx, n, want))
+    if re.search(r"\b(table|db)\b", blk): raise ExtractError("x_redb: new_store loading block: unrewritten use of table/db")
+    line = src[:a + i].count("\n") + 1
+    return ("    fn load_versions(table0: BTreeMap<String, Vec<u8>>) -> BTreeMap<String, u64> {\n"
+            "        let mut versions: BTreeMap<String, u64> = BTreeMap::new();\n        " + blk + "\n        versions\n    }"), line
+
+
 def extract(repo):
     src = open(os.path.join(repo, REL)).read()
     pf = os.path.join(HERE, "..", "lean", "VlsModel", "Props", "C16Gen.lean")
@@ -91,6 +138,11 @@ def extract(repo):
     for name, thm in FNS:
         if not re.search(r"\btheorem\s+" + re.escape(thm) + r"\b", ptxt) and not os.environ.get("X_HMAC_NOCHECK"):
             raise ExtractError("x_redb: target %s names theorem %s which is not in Props/C16Gen.lean" % (name, thm))
+        if name == "load_versions":
+            t, line = load_versions_fn(src)
+            lines[name] = line
+            parts.append(t)
+            continue
         t, line = fn_text(src, name)
         lines[name] = line
         parts.append("    " + rewrite(name, t))
@@ -101,7 +153,8 @@ def extract(repo):
     facts, obligations = {}, []
     try:
         u = Unit(repo, REL + " (redb idioms rewritten by x_redb.py)", "VlsModel.Gen.FnRedb", (),
-                 {"encode_vv": {"params": ["u64", "Vec<u8>"], "ret": "Vec<u8>"}}, (), src=shim)
+                 {"encode_vv": {"params": ["u64", "Vec<u8>"], "ret": "Vec<u8>"},
+                  "decode_vv": {"params": ["&[u8]"], "ret": "(u64, Vec<u8>)"}}, (), src=shim)
     except (RsError, OSError) as e:
         raise ExtractError("x_redb: cannot index the rewritten source: %s" % e)
     for name, thm in FNS:
